@@ -24,7 +24,9 @@ RULE = ('correlations: the C05 class grid on ThermochemRawData / '
         'without Cp data. Temperatures: lo, nextafter(lo,-inf), lo-1, hi, '
         'nextafter(hi,+inf), hi+1, 0, -1, -300, 1e6, lo/2, 2*hi, interior '
         'points and knots. Non-trivial = an object probed both outside and '
-        'inside its reported range; distinct by object data.')
+        'inside its reported range; distinct by object data.'
+        ' Argument forms for T: float; array [inside, outside]; one-element '
+        'array; 0-d array; numpy scalar; int. ')
 ASSUMPTIONS = [
     'ranges are positive; correlations without Cp data have T_ref inside '
     'their range; NaN is not a temperature',
